@@ -19,7 +19,8 @@ CONSTANTS Layout, MaxOps, Good, Bad,
           BUG_NoDirWatch,        \* events from the directory watch are lost
           BUG_NoCsumCheck,       \* unchanged content is reported again
           BUG_NoDirWatchUpdate,  \* k8s: the watch on the resolved directory is not moved after a swap
-          RecheckAfterRearm      \* the loop reads again after it changed its watch set (the repaired behaviour)
+          RecheckAfterRearm,     \* the loop reads again after it changed its watch set (the repaired behaviour)
+          SampleN                \* emit one history in SampleN (1: all)
 
 \* contents: Good decode and verify, Bad decode but fail Verify, "empty" and "junk" do not decode
 Contents == Good \cup Bad \cup {"empty", "junk"}
@@ -158,5 +159,6 @@ ErrorReported == (ops = MaxOps /\ Quiet /\ Final \in Bad \cup {"junk"} /\ Final 
 NoVersionForIdentical == [][versions' > versions => loop.rc # loop.last]_vars
 DrainsEventually == []<>(evq = <<>> /\ loop.pc = "wait")
 
-Emit == (ops = MaxOps) => PrintT(<<"CASE", ToJson([layout |-> Layout, ops |-> hist])>>)
+\* one line per environment history: at the states where the loop has drained (several loop states share a history)
+Emit == (ops = MaxOps /\ Quiet /\ (SampleN = 1 \/ RandomElement(1..SampleN) = 1)) => PrintT(<<"CASE", ToJson([layout |-> Layout, ops |-> hist])>>)
 =============================================================================
